@@ -30,6 +30,7 @@ NUM = (N, I, R)
 #  ('cint',a,l,u) ('oint',a,l,u)  a Mem real_closed_interval l u / real_open_interval l u
 #  ('ofint',a) ('pow',ty,a,n)     constructs z3wrapper.convert does not support
 #  ('feq',f,g,dom,cod)            equation between two function variables
+#  ('sqrt',a) ('log',a) ('exp',a)  SymPy stream only
 #  ('all'|'ex',iname,ty,body,stored)  binder whose holpy term stores the name `stored`; `iname` is
 #                                  unique inside the goal and only used for scoping in this AST
 # ---------------------------------------------------------------------------------------------
@@ -143,6 +144,8 @@ class Holpy:
             c = T.Const("real_closed_interval" if k == "cint" else "real_open_interval",
                         Ty.TFun(Ty.RealType, Ty.RealType, self.hset.setT(Ty.RealType)))
             return self.hset.mk_mem(tm(a[1]), c(tm(a[2]), tm(a[3])))
+        if k in ("sqrt", "log", "exp"):
+            return T.Const(k, Ty.TFun(Ty.RealType, Ty.RealType))(tm(a[1]))
         if k == "feq":
             fT = Ty.TFun(self.ty(a[3]), self.ty(a[4]))
             return T.Eq(T.Var(a[1], fT), T.Var(a[2], fT))
@@ -190,6 +193,68 @@ def k_and(a, b):
 
 def k_or(a, b):
     return k_not(k_and(k_not(a), k_not(b)))
+
+
+class Inexact(Exception):
+    """the exact evaluator cannot give the value (irrational)"""
+
+
+def isqrt_exact(n):
+    import math
+    r = math.isqrt(n)
+    return r if r * r == n else None
+
+
+def evn(a, v, mp, margin):
+    """Numeric evaluation (mpmath, 50 digits) of the real fragment of the SymPy stream; comparisons
+    answer True/False only outside `margin`, else None."""
+    k = a[0]
+    e = lambda t: evn(t, v, mp, margin)
+    if k == "var":
+        f = Fraction(v.vars[(a[1], a[2])])
+        return mp.mpf(f.numerator) / f.denominator
+    if k == "num":
+        return mp.mpf(a[2]) / a[3]
+    if k in ("add", "sub", "mul"):
+        x, y = e(a[2]), e(a[3])
+        if k == "add":
+            return x + y
+        if k == "mul":
+            return x * y
+        return max(x - y, mp.mpf(0)) if a[1] == N else x - y
+    if k == "div":
+        x, y = e(a[1]), e(a[2])
+        if abs(y) < margin:
+            if y == 0:
+                return mp.mpf(0)
+            raise Inexact()
+        return x / y
+    if k == "neg":
+        return -e(a[2])
+    if k == "abs":
+        return abs(e(a[2]))
+    if k == "pow":
+        return e(a[2]) ** a[3]
+    if k == "sqrt":
+        x = e(a[1])
+        return mp.sqrt(abs(x)) * (1 if x >= 0 else -1)
+    if k == "exp":
+        return mp.exp(e(a[1]))
+    if k == "log":
+        x = e(a[1])
+        if abs(x) < margin and x != 0:
+            raise Inexact()
+        return mp.log(x) if x > 0 else mp.mpf(getattr(v, "log0", 0))
+    if k in ("le", "lt", "ge", "gt", "eq"):
+        x, y = e(a[2]), e(a[3])
+        if abs(x - y) < margin:
+            return None
+        return {"le": x < y, "lt": x < y, "ge": x > y, "gt": x > y, "eq": False}[k]
+    if k == "not":
+        return k_not(e(a[1]))
+    if k in ("cint", "oint"):
+        return None
+    raise Inexact()
 
 
 def hdiv(a, b):
@@ -281,6 +346,31 @@ def ev(a, v, env=()):
     if k == "pow":
         x = ev(a[2], v, env)
         return None if x is None else x ** a[3]
+    if k == "sqrt":
+        # total in the HOL library: sqrt x = (SOME y. sgn y = sgn x ∧ y ^ 2 = abs x), i.e. sgn(x) * sqrt |x|
+        x = Fraction(ev(a[1], v, env))
+        n, d = isqrt_exact(abs(x.numerator)), isqrt_exact(x.denominator)
+        if n is None or d is None:
+            raise Inexact()
+        return Fraction(n, d) * (1 if x >= 0 else -1)
+    if k == "exp":
+        if a[1][0] == "log":
+            t = ev(a[1][1], v, env)
+            if t > 0:
+                return Fraction(t)
+        x = ev(a[1], v, env)
+        if x == 0:
+            return Fraction(1)
+        raise Inexact()
+    if k == "log":
+        if a[1][0] == "exp":
+            return Fraction(ev(a[1][1], v, env))
+        x = ev(a[1], v, env)
+        if x <= 0:
+            return Fraction(getattr(v, "log0", 0))     # unspecified off the domain: any value
+        if x == 1:
+            return Fraction(0)
+        raise Inexact()
     if k == "app":
         x = ev(a[4], v, env)
         return None if x is None else v.funs[(a[1], a[2], a[3])](x)
@@ -773,6 +863,17 @@ class G:
             lambda: ("eq", N, sub(num(N, 2), num(N, 3)), Z0),
             lambda: ("not", ("eq", N, sub(num(N, 2), num(N, 3)), Z0)),
             lambda: ("ge", N, ("app", "f", N, N, sub(s1, s2)), Z0),
+            # --- unary minus on nat (declared, unspecified): nothing about it may be proved
+            lambda: ("imp", ("gt", N, s1, Z0), ("lt", N, ("neg", N, s1), Z0)),
+            lambda: ("ge", N, ("neg", N, s1), Z0),
+            lambda: ("eq", N, ("add", N, ("neg", N, s1), s1), Z0),
+            lambda: ("eq", N, ("neg", N, s1), Z0),
+            lambda: ("le", N, ("neg", N, s1), s1),
+            lambda: ("eq", N, ("neg", N, ("neg", N, s1)), s1),
+            lambda: ("imp", ("eq", N, s1, s2), ("eq", N, ("neg", N, s1), ("neg", N, s2))),
+            lambda: ("all", bn, N, ("le", N, ("neg", N, bv), Z0)),
+            lambda: ("ex", bn, N, ("lt", N, ("neg", N, bv), Z0)),
+            lambda: ("eq", R, ("ofnat", ("neg", N, s1)), ("neg", R, ("ofnat", s1))),
             # --- nat variables and terms are non-negative
             lambda: ("ge", N, s1, Z0),
             lambda: ("ge", N, ("mul", N, s1, s2), Z0),
@@ -1069,10 +1170,22 @@ def call_z3(H, goal, via_macro, limit=60):
     return res, flag_ok
 
 
+def oracle_view(a):
+    """uminus :: 'a => 'a is declared at every type but specified on int and real only: on nat it
+    is an arbitrary function nat => nat.  For the oracles -t (t :: nat) is %uminus t with %uminus an
+    uninterpreted function variable."""
+    if not isinstance(a, tuple):
+        return a
+    if a[0] == "neg" and a[1] == N:
+        return ("app", "%uminus", N, N, oracle_view(a[2]))
+    return tuple(oracle_view(x) for x in a)
+
+
 def judge(H, goal, rng, budget):
     """Independent verdict on a goal the wrapper accepted.
     Returns ('violation', how, Val) | ('valid-by-oracle',) | ('no-countermodel-found', why)"""
     z3 = H.z3
+    goal = oracle_view(goal)
     v = brute_force(goal, rng, budget)
     if v is not None:
         return ("violation", "brute-force", v)
@@ -1187,7 +1300,7 @@ def z3_check_goals(ctx, H, goals, rng, label):
             ctx.log("UNCONFIRMED", H.term(goal))
         ctx.count("z3:oracle:" + verdict[0] + (":" + verdict[1] if len(verdict) > 1 and verdict[0] != "violation" else ""))
         if verdict[0] == "violation":
-            val = describe_val(goal, verdict[2])
+            val = describe_val(oracle_view(goal), verdict[2])
             ctx.violation("z3:accepts-invalid:" + canon(goal),
                           "z3wrapper %s accepts %s, which is false in HOL under %s (%s)" % ("Z3Macro.eval" if via_macro else "solve", H.term(goal), val, verdict[1]),
                           {"kind": "z3", "goal": tolist(goal), "via_macro": via_macro, "countermodel": val, "how": verdict[1]})
@@ -1282,6 +1395,84 @@ class GS:
             lambda: ("gt", R, t, zero), lambda: ("ge", R, t, zero), lambda: ("ge", R, t, one), lambda: ("le", R, t, one),
             lambda: ("not", ("eq", R, t, zero)), lambda: ("not", ("eq", R, t, self.q())), lambda: ("ge", R, ("abs", R, t), zero),
             lambda: ("gt", R, ("abs", R, t), zero), lambda: ("not", ("eq", R, ("sub", R, t, one), zero)), lambda: ("le", R, t, t),
+        ])()
+        return goal, cond
+
+    def second_var(self):
+        """(goal, cond): interval condition on x, goal mentions another variable y"""
+        r, X = self.r, self.X
+        Y = ("var", "y", R)
+        one, zero = num(R, 1), num(R, 0)
+        pool = [0, 1, -1, 2, Fraction(1, 2)]
+        l, u = sorted([Fraction(r.choice(pool)), Fraction(r.choice(pool))])
+        cond = (r.choice(["cint", "oint"]), X, num(R, l), num(R, u))
+        goal = r.choice([
+            lambda: ("ge", R, ("mul", R, ("div", one, Y), Y), one),
+            lambda: ("gt", R, ("div", Y, Y), zero),
+            lambda: ("not", ("eq", R, ("div", Y, Y), zero)),
+            lambda: ("not", ("eq", R, ("div", one, Y), zero)),
+            lambda: ("ge", R, ("mul", R, Y, Y), zero),
+            lambda: ("ge", R, ("add", R, X, ("div", Y, Y)), X),
+            lambda: ("gt", R, ("add", R, X, ("div", Y, Y)), X),
+            lambda: ("not", ("eq", R, ("mul", R, X, ("div", one, Y)), one)),
+            lambda: ("ge", R, ("div", X, ("add", R, ("mul", R, Y, Y), one)), zero),
+            lambda: ("le", R, Y, Y),
+            lambda: ("not", ("eq", R, Y, ("add", R, Y, one))),
+            lambda: ("ge", R, ("abs", R, Y), zero),
+            lambda: ("not", ("eq", R, ("sub", R, X, Y), zero)),
+            lambda: ("gt", R, ("div", one, ("sub", R, X, Y)), zero),
+            lambda: self.rel(R, ("add", R, self.ex(1), Y), self.ex(1)),
+        ])()
+        return goal, cond
+
+    def trans_plain(self):
+        r, X = self.r, self.X
+        one, zero = num(R, 1), num(R, 0)
+        c = num(R, r.choice([-1, -4, 4, 2, 0, 1, Fraction(1, 4), -9]))
+        e = r.choice([X, c, ("mul", R, X, X), ("sub", R, X, one), ("abs", R, X)])
+        return r.choice([
+            lambda: ("eq", R, ("mul", R, ("sqrt", c), ("sqrt", c)), c),
+            lambda: ("eq", R, ("mul", R, ("sqrt", e), ("sqrt", e)), e),
+            lambda: ("eq", R, ("pow", R, ("sqrt", e), 2), e),
+            lambda: ("eq", R, ("sqrt", ("mul", R, e, e)), e),
+            lambda: ("eq", R, ("sqrt", ("mul", R, e, e)), ("abs", R, e)),
+            lambda: ("eq", R, ("exp", ("log", e)), e),
+            lambda: ("eq", R, ("log", ("exp", e)), e),
+            lambda: ("eq", R, ("sqrt", num(R, 4)), num(R, 2)),
+            lambda: ("eq", R, ("sqrt", num(R, -4)), num(R, -2)),
+            lambda: ("ge", R, ("sqrt", c), zero),
+            lambda: ("ge", R, ("sqrt", num(R, 2)), one),
+            lambda: ("not", ("eq", R, ("sqrt", c), zero)),
+            lambda: ("not", ("eq", R, ("mul", R, ("sqrt", c), ("sqrt", c)), ("abs", R, c))),
+            lambda: ("gt", R, ("exp", ("log", c)), zero),
+            lambda: ("eq", R, ("exp", ("log", c)), c),
+            lambda: ("not", ("eq", R, ("log", one), one)),
+            lambda: ("eq", R, ("exp", zero), one),
+            lambda: ("ge", R, ("exp", e), zero),
+            lambda: ("eq", R, ("div", ("sqrt", e), ("sqrt", e)), one),
+        ])()
+
+    def trans_interval(self):
+        r, X = self.r, self.X
+        one, zero = num(R, 1), num(R, 0)
+        pool = [0, 1, -1, 2, 4, -4, Fraction(1, 4)]
+        l, u = sorted([Fraction(r.choice(pool)), Fraction(r.choice(pool))])
+        cond = (r.choice(["cint", "oint"]), X, num(R, l), num(R, u))
+        goal = r.choice([
+            lambda: ("ge", R, ("mul", R, ("sqrt", X), ("sqrt", X)), X),
+            lambda: ("le", R, ("mul", R, ("sqrt", X), ("sqrt", X)), X),
+            lambda: ("ge", R, ("sqrt", X), zero),
+            lambda: ("le", R, ("sqrt", X), X),
+            lambda: ("not", ("eq", R, ("sqrt", X), num(R, -1))),
+            lambda: ("not", ("eq", R, ("sub", R, ("mul", R, ("sqrt", X), ("sqrt", X)), X), one)),
+            lambda: ("gt", R, ("exp", ("log", X)), zero),
+            lambda: ("ge", R, ("exp", ("log", X)), X),
+            lambda: ("le", R, ("exp", ("log", X)), X),
+            lambda: ("not", ("eq", R, ("exp", ("log", X)), zero)),
+            lambda: ("ge", R, ("log", X), zero),
+            lambda: ("ge", R, ("exp", X), one),
+            lambda: ("gt", R, ("div", one, ("sqrt", X)), zero),
+            lambda: ("not", ("eq", R, ("div", one, ("sqrt", X)), zero)),
         ])()
         return goal, cond
 
@@ -1391,11 +1582,12 @@ class GS:
         return r.choice(fams)(), cond
 
 
-def grid_points(cond):
+def grid_points(cond, small=False):
     pts = set()
-    for p in range(-48, 49):
-        for q in (1, 2, 3, 4, 6, 12):
+    for p in range(-48, 49) if not small else range(-8, 9):
+        for q in ((1, 2, 3, 4, 6, 12) if not small else (1, 2)):
             pts.add(Fraction(p, q))
+    pts |= {Fraction(x) for x in (4, -4, 9, -9, Fraction(1, 4), Fraction(-1, 4), Fraction(9, 4), Fraction(4, 9), Fraction(1, 9), 16)}
     if cond is not None:
         v0 = Val({})
         l, u = ev(cond[2], v0), ev(cond[3], v0)
@@ -1406,16 +1598,38 @@ def grid_points(cond):
     return sorted(pts)
 
 
+YGRID = [Fraction(x) for x in (0, 1, -1, 2, Fraction(1, 2), Fraction(-1, 2), -2, 4, Fraction(1, 4))]
+
+
 def sympy_counterexample(goal, cond):
-    for pt in grid_points(cond):
-        v = Val({("x", R): pt})
-        try:
-            if cond is not None and ev(cond, v) is not True:
-                continue
-            if ev(goal, v) is False:
-                return pt
-        except (ZeroDivisionError, OverflowError):
-            continue
+    """A point (within the interval condition, any value of the other variable) at which the
+    goal is false under the HOL semantics (x / 0 = 0, truncated nat subtraction, total sqrt, log
+    arbitrary off its domain): exact arithmetic where possible, else mpmath with a safety margin."""
+    import mpmath
+    mp = mpmath.mp.clone()
+    mp.dps = 50
+    margin = mp.mpf(10) ** -30
+    has_y = ("v", "y", R) in free_syms(goal)
+    has_log = has_kind(goal, ("log",))
+    for pt in grid_points(cond, small=has_y):
+        for y in (YGRID if has_y else [None]):
+            for log0 in ((0, 1) if has_log else (0,)):
+                vars_ = {("x", R): pt}
+                if has_y:
+                    vars_[("y", R)] = y
+                v = Val(vars_)
+                v.log0 = log0
+                try:
+                    if cond is not None and ev(cond, v) is not True:
+                        continue
+                    try:
+                        val = ev(goal, v)
+                    except Inexact:
+                        val = evn(goal, v, mp, margin)
+                    if val is False:
+                        return "x = %s" % pt + (", y = %s" % y if has_y else "") + (", log t = %s for t <= 0" % log0 if has_log else "")
+                except (ZeroDivisionError, OverflowError, Inexact, ValueError):
+                    continue
     return None
 
 
@@ -1447,7 +1661,7 @@ def call_sympy(H, goal, cond, mode, limit=60):
 def sympy_stage(ctx, H):
     rng = ctx.rng("sympy")
     g = GS(rng)
-    n = ctx.scale(500, 5000)
+    n = ctx.scale(650, 5000)
     nacc = 0
     for idx in range(n):
         c = rng.random()
@@ -1455,10 +1669,16 @@ def sympy_stage(ctx, H):
             goal, cond = g.plain(), None
         elif c < 0.7:
             goal, cond = g.interval()
-        elif c < 0.85:
+        elif c < 0.78:
             goal, cond = g.nested_plain(), None
-        else:
+        elif c < 0.86:
             goal, cond = g.nested_interval()
+        elif c < 0.91:
+            goal, cond = g.second_var()
+        elif c < 0.96:
+            goal, cond = g.trans_plain(), None
+        else:
+            goal, cond = g.trans_interval()
         mode = "macro" if idx % 4 == 3 else "direct"
         res = call_sympy(H, goal, cond, mode)
         ctx.case(("sympy", canon(goal), canon(cond) if cond else None), nontrivial=size(goal) >= 4)
@@ -1473,7 +1693,7 @@ def sympy_stage(ctx, H):
         pt = sympy_counterexample(goal, cond)
         if pt is not None:
             ctx.violation("sympy:accepts-invalid:%s|%s" % (canon(goal), canon(cond) if cond else ""),
-                          "sympywrapper (%s) accepts %s%s, which is false in HOL at x = %s" % (
+                          "sympywrapper (%s) accepts %s%s, which is false in HOL at %s" % (
                               mode, H.term(goal), " under " + str(H.term(cond)) if cond else "", pt),
                           {"kind": "sympy", "goal": tolist(goal), "cond": tolist(cond) if cond else None, "mode": mode, "x": str(pt)})
         else:
@@ -1531,7 +1751,7 @@ def term_to_h(H, t, depth=0):
         return ["imp", rec(t.arg1), rec(t.arg)]
     if t.is_equals():
         if is_funlike(t.arg.get_type()):
-            return "eqfun"
+            return ["eqfun", 0]
         return ["eq", rec(t.arg1), rec(t.arg)]
     if t.is_conj():
         return ["and", rec(t.arg1), rec(t.arg)]
@@ -1549,7 +1769,7 @@ def term_to_h(H, t, depth=0):
     if t.is_minus():
         return ["sub", t.arg1.get_type() == Ty.NatType, rec(t.arg1), rec(t.arg)]
     if t.is_uminus():
-        return ["neg", rec(t.arg)]
+        return ["neg", t.arg.get_type() == Ty.NatType, rec(t.arg)]
     if t.is_times():
         return ["mul", rec(t.arg1), rec(t.arg)]
     if t.is_less_eq():
@@ -1567,7 +1787,7 @@ def term_to_h(H, t, depth=0):
             if t.arg.is_var() and not t.arg.name.startswith("%b%"):
                 return ["ofnatvar", sexp.enc(t.arg.name)]
             return ["ofnat", rec(t.arg)]
-        return "unsup"
+        return ["unsup", 0]
     if t.is_comb("max", 2):
         return ["max", rec(t.arg1), rec(t.arg)]
     if t.is_comb("min", 2):
@@ -1585,15 +1805,15 @@ def term_to_h(H, t, depth=0):
             return ["app", sexp.enc(f.name), ty_sexp(H, f.T.domain_type()), ty_sexp(H, f.T.range_type()), rec(t.arg)]
         h = t.head
         if h.is_const():
-            return "unsup"
+            return ["unsup", 0]
         raise OutsideModel("application")
     if t.is_const():
         if t == T.true:
             return "tt"
         if t == T.false:
             return "ff"
-        return "unsup"
-    return "unsup"
+        return ["unsup", 0]
+    return ["unsup", 0]
 
 
 def sort_sexp(z3, s):
@@ -1649,8 +1869,23 @@ class FakeSolver:
         self.ctx = None
         self.items = []
 
-    def add(self, a):
-        self.items.append(a)
+    def add(self, *args):
+        for a in args:
+            if isinstance(a, (list, tuple)):
+                self.items.extend(a)
+            else:
+                self.items.append(a)
+
+    append = insert = assert_exprs = add
+
+    def __getattr__(self, name):
+        # anything else solve_core may start to use (push, set, ...): the tie is then unavailable,
+        # which is reported as such, never as a property failure
+        raise InterceptionUnavailable("solver method %s" % name)
+
+
+class InterceptionUnavailable(Exception):
+    pass
 
 
 def impl_solve_core(H, t, limit=60):
@@ -1658,19 +1893,21 @@ def impl_solve_core(H, t, limit=60):
     zw = H.zw
     seen = []
     first_names = []
+    if not callable(getattr(zw, "convert", None)) or not callable(getattr(zw, "solve_core", None)):
+        raise InterceptionUnavailable("z3wrapper.convert / solve_core not found")
     orig = zw.convert
 
-    def wrapped(tm, var_names, assms, to_real, ctx):
-        if not seen:
-            first_names.append(list(var_names))
+    def wrapped(tm, *args, **kw):
         seen.append(tm)
-        return orig(tm, var_names, assms, to_real, ctx)
+        return orig(tm, *args, **kw)
     zw.convert = wrapped
     s = FakeSolver()
     try:
         with time_limit(limit):
             zw.solve_core(s, t)
         res = ["ok"] + [z3_to_sexp(H.z3, a) for a in s.items]
+    except InterceptionUnavailable:
+        raise
     except zw.Z3Exception:
         res = ["error", "z3exc"]
     except Timeout:
@@ -1689,6 +1926,14 @@ def correspondence(ctx, H, goals, label):
         t = H.term(goal)
         try:
             seen, res = impl_solve_core(H, t)
+        except InterceptionUnavailable as e:
+            # a refactoring of solve_core's internals: the tie to the model cannot be observed any
+            # more; the oracle streams still judge every acceptance.  Not a property failure.
+            ctx.count("corr:%s:interception-unavailable" % label)
+            ctx.coverage["correspondence_unavailable"] = str(e)
+            if "correspondence stream unavailable (solve_core internals changed): model tie not checked this run" not in ctx.assumptions:
+                ctx.assumptions.append("correspondence stream unavailable (solve_core internals changed): model tie not checked this run")
+            return 0
         except Exception as e:  # noqa   (norm_term itself failed)
             ctx.count("corr:%s:solve_core-raises-before-convert" % label)
             continue
@@ -1716,6 +1961,12 @@ def correspondence(ctx, H, goals, label):
         return
     ndis = 0
     for k, (a, b) in enumerate(zip(impl, out)):
+        if "(xor " in lines[k] and a != b and a.startswith("(ok"):
+            # z3.Or(..., ctx=None) currently raises on xor (the model mirrors that crash); an
+            # implementation that translates xor instead is not compared here (its acceptances are
+            # judged by the oracles)
+            ctx.count("corr:%s:xor-translated-not-compared" % label)
+            continue
         ctx.count("corr:%s:%s" % (label, "agree" if a == b else "DISAGREE"))
         ctx.count("corr:kind:" + (a.split(" ")[0].strip("(") + (":" + a.split(" ")[1].strip(")") if a.startswith("(error") else "")))
         if a != b:
@@ -1779,7 +2030,7 @@ def sympy_check_one(ctx, H, goal, cond, mode, label):
     pt = sympy_counterexample(goal, cond)
     if pt is not None:
         ctx.violation("sympy:accepts-invalid:%s|%s" % (canon(goal), canon(cond) if cond else ""),
-                      "sympywrapper (%s) accepts %s%s, which is false in HOL at x = %s" % (
+                      "sympywrapper (%s) accepts %s%s, which is false in HOL at %s" % (
                           mode, H.term(goal), " under " + str(H.term(cond)) if cond else "", pt),
                       {"kind": "sympy", "goal": tolist(goal), "cond": tolist(cond) if cond else None, "mode": mode, "x": str(pt)})
     else:
@@ -1835,7 +2086,7 @@ def sympy_history_stage(ctx, H):
                 pt = sympy_counterexample(gl, cond)
                 if pt is not None:
                     ctx.violation("sympy:accepts-invalid:%s|%s" % (canon(gl), canon(cond)),
-                                  "sympywrapper (%s) accepts %s under %s, which is false in HOL at x = %s (asked after %d related queries in this process)" % (
+                                  "sympywrapper (%s) accepts %s under %s, which is false in HOL at %s (asked after %d related queries in this process)" % (
                                       mode, H.term(gl), H.term(cond), pt, len(history)),
                                   {"kind": "sympy", "goal": tolist(gl), "cond": tolist(cond), "mode": mode, "x": str(pt),
                                    "history": [[tolist(a), tolist(b), m] for a, b, m in history]})
@@ -1872,10 +2123,13 @@ def run(ctx):
         "norm_term's rewriting (kernel conversions with library theorems) and fologic.simplify are not modelled: the model starts from "
         "the terms convert receives; their effect is covered by the oracles only"]
     ctx.assumptions += [
-        "theorems are about the code with fixes/C06-1..8.patch applied; on the unfixed tree the oracle reports the defects as violations",
+        "theorems are about the code with fixes/C06-1..11.patch applied; on a tree without them the oracle reports the defects as violations",
         "solve_sound_partial assumes the valuation reads auxiliary constants as intended (freshness of generated names not proved in Lean)",
         "Z3 timeouts (2 s quick / 4 s thorough, set in the harness process) count as rejections",
-        "SymPy: transcendental functions, sqrt and real powers are outside the explored fragment (their HOL values off-domain are unspecified)"]
+        "SymPy: sqrt (total in the library: sgn(x)*sqrt|x|), exp and log (arbitrary for arguments <= 0) are judged at exact points and "
+        "numerically (mpmath, 50 digits, margin 1e-30) elsewhere; trigonometric functions and real powers are generated only through the "
+        "wrapper's tests, not by the oracle stream",
+        "uminus on nat is declared in the library but unspecified: the oracles treat it as an arbitrary function nat => nat"]
     H = Holpy(ctx)
     H.z3.set_param("timeout", ctx.scale(2000, 4000))
     flag_checks(ctx, H)
@@ -1919,7 +2173,15 @@ def run(ctx):
     correspondence(ctx, H, cz + goals + dgoals, "gen")
     must = ["z3:gen:accept", "z3:gen:reject", "z3:oracle:valid-by-oracle", "sympy:plain:accept", "sympy:interval:accept", "corr:gen:agree",
             "corr:kind:error:z3exc"]
+    if ctx.coverage.get("correspondence_unavailable"):
+        must = [m for m in must if not m.startswith("corr:")]
     missing = [m for m in must if not ctx.coverage["histogram"].get(m)]
+    h = ctx.coverage["histogram"]
+    unknown = {k: v for k, v in h.items() if k.startswith("z3:oracle:no-countermodel-found")}
+    ctx.coverage["oracle_undecided"] = {"accepted_goals_not_decided_by_the_independent_oracle": sum(unknown.values()), "by_reason": unknown,
+                                        "accepted_goals_confirmed_valid": h.get("z3:oracle:valid-by-oracle", 0)}
+    ctx.log("ORACLE: %d accepted Z3 goals confirmed valid, %d NOT decided by the independent oracle %s" % (
+        h.get("z3:oracle:valid-by-oracle", 0), sum(unknown.values()), unknown))
     if missing:
         ctx.broken("coverage:c06", "branches never reached: %s" % missing)
 
@@ -1943,15 +2205,20 @@ def replay(ctx, rp):
 
 
 MANIFEST = {
-    "text": "Lean model of z3wrapper.convert/solve_core (with the Python-level literal folding, z3py operand reflection, side tables) and of "
-            "the sympywrapper decision logic; theorems: convert preserves meaning exactly (all polarities, quantifiers, for every ordered "
-            "field and every interpretation), nat binders are relativised correctly, solve is sound when Z3's unsat is right (partial: "
-            "freshness of generated names), SymPy acceptance logic sound for an abstract value-preserving normaliser. Tied to the code by "
-            "differential runs of solve_core against the model and by regenerating norm_thms/check_z3. Every acceptance of the real "
-            "wrappers is judged by an independent encoding + exact evaluation + brute force (Z3) and by rational grid search (SymPy).",
-    "note": "Trusted: Lean kernel, Z3 and SymPy themselves, the harness (generators, term reader, independent encoding, evaluator), "
-            "norm_term/fologic.simplify (oracle-covered only). Theorems hold for the tree with fixes/C06-1..8.patch; the pinned tree "
-            "violates the property in eight ways (see FINDINGS).",
+    "text": "Z3 half: Lean model of z3wrapper.convert/solve_core (Python-level literal folding, z3py operand reflection, side tables); "
+            "theorems: convert preserves meaning exactly (all polarities, quantifiers, every ordered field and interpretation, arbitrary "
+            "values for untranslatable subterms and for uminus on nat), nat binders are relativised correctly, solve is sound when Z3's "
+            "unsat is right (partial: freshness of generated names). Tied to the code by differential runs of solve_core against the model "
+            "and by regenerating norm_thms/check_z3. Every acceptance of the real wrapper is judged by an independent encoding + exact "
+            "evaluation + brute force. SymPy half: ORACLE-JUDGED (every acceptance of solve_goal / solve_with_interval / the macro, also "
+            "under varied query histories within one process, is checked on rational grids with HOL semantics); the Lean side has only "
+            "theorems about the acceptance logic for an ABSTRACT value-preserving normaliser (no executable tie: solveGoal / "
+            "solveWithInterval have no driver op, their divisor arguments carry no proof obligation).",
+    "note": "Trusted: Lean kernel, Z3 and SymPy themselves, the harness (generators, term reader, independent encoding, evaluators), "
+            "norm_term/fologic.simplify (oracle-covered only; set operations, multi-argument and bool-domain functions are not generated). "
+            "check_z3_off_unsound, untranslatable_conclusion_not_negated and stdQuant_std restate definitions (pins, not properties). "
+            "Accepted goals the independent oracle could not decide are counted in evidence coverage.oracle_undecided. Theorems hold for the "
+            "tree with fixes/C06-1..11.patch.",
     "design_ref": "DESIGN.md 4/C06",
 }
 FINDINGS = [
@@ -1971,4 +2238,10 @@ FINDINGS = [
      "what": "solve_goal(x / x = 1), solve_with_interval(x / x >= 1, x Mem [0,1]), solve_with_interval(~(1 / x = 0), x Mem [-1,1]) returned True: SymPy's x/x = 1 and 1/0 = zoo against HOL's x / 0 = 0"},
     {"status": "fixed", "key": "z3:real-literals-as-python-numbers", "commit": "928e63b",
      "what": "solve((if p then (1::real) else 3) / 2 = (if p then 0 else 1)) returned True (integer division on sort Int) and solve(~((2::real) / 6 = 1 / 3)) returned True (Python float division)"},
+    {"status": "fixed", "key": "z3:uminus-on-nat", "commit": "fixes/C06-9.patch",
+     "what": "solve(x > 0 --> -x < 0) returned True for x :: nat: uminus (declared at every type, unspecified on nat) was translated as integer negation"},
+    {"status": "fixed", "key": "sympy:foreign-variable", "commit": "fixes/C06-10.patch",
+     "what": "with x Mem real_closed_interval 0 1 the sympy step proved y / y > 0, ~(1 / y = 0), 1 / y * y >= 1 (false at y = 0): divisors were checked for zeros in x only"},
+    {"status": "fixed", "key": "sympy:sqrt-log-domains", "commit": "fixes/C06-11.patch",
+     "what": "solve_goal proved sqrt(-1) * sqrt(-1) = -1, sqrt x * sqrt x = x, exp(log x) = x, x ^ (1/2) * x ^ (1/2) = x: SymPy's complex sqrt/log against the library's total real functions"},
 ]
